@@ -72,3 +72,7 @@ package cache
 //@   props C07 C11
 //@   nopanic typeassert
 //@   recvinv results: (elem.Status == entity.MergeStatusNew || elem.Status == entity.MergeStatusUpdated) && elem.Err == nil ==> implements(elem.Entity, EntityT)
+
+//@ func (*SubCache).ResolveExcerpt
+//@   trusted
+//@   modifies nothing
